@@ -202,6 +202,13 @@ func propC20(c *Ctx) {
 		}
 	})
 
+	// the chain floor cannot be skipped by a failed read: an error of the params read (or of any
+	// other fallible call) is never dropped on an admitting path
+	c.Rule("C20.R5", func() {
+		fn := c.Method("opchild/ante", "MempoolFeeChecker", "CheckTxFeeWithMinGasPrices")
+		errorDiscipline(c, "C20.R5", "MempoolFeeChecker.CheckTxFeeWithMinGasPrices", fn, PO{Params: []string{"mfd", "ctx", "tx"}, Visits: 3, NoInline: []string{"CombinedMinGasPrices"}, Pure: []string{"CombinedMinGasPrices"}})
+	})
+
 	c.Rule("C20.R2", func() {
 		fn, recvS := returnedFunc(c, c.Func("opchild/lanes", "SystemLaneMatchHandler"))
 		o := c.Ob("C20.R2", "system lane: true only for one MsgUpdateOracle or one MsgExec wrapping exactly one MsgUpdateOracle")
